@@ -186,8 +186,8 @@ def load_known_findings(path=KNOWN_FINDINGS):
     with open(path) as f:
         for line in f:
             line = line.strip()
-            if not line or line.startswith("#"):
-                continue
+            if not line or line.startswith("#") or line.startswith("fixed:"):
+                continue  # "fixed:" lines document repaired defects and suppress nothing
             out.append(json.loads(line))
     return out
 
